@@ -59,6 +59,7 @@ class State:
         s.iter = getattr(self, 'iter', None)
         s.ptr_lo = dict(getattr(self, 'ptr_lo', None) or {})
         s.env_epoch = getattr(self, 'env_epoch', 0)
+        s.loop_mark = getattr(self, 'loop_mark', 0)
         s.actions = getattr(self, 'actions', [])
         s.pending_action = getattr(self, 'pending_action', None)
         return s
@@ -289,7 +290,7 @@ class Exec:
                 p = term.arg(1)
                 ok = True
                 while True:
-                    if p.decl().eq(Path.pnil):
+                    if p.eq(Path.pnil):
                         break
                     if p.decl().eq(Path.pcons):
                         path.append(p.arg(0))
@@ -311,7 +312,7 @@ class Exec:
             seen = st.ptr_lo = {}
         if seen.get(key) != lo:
             seen[key] = lo
-            st.pc.append(Addr.aid(term) >= lo)
+            st.pc.append(z3.And(Addr.aid(term) >= lo, z3.Implies(Addr.aid(term) == 0, term == NIL)))
         return PAddr(base=term, lo=lo)
 
     def store(self, st, p, v):
@@ -517,6 +518,7 @@ class Exec:
                     # back edge: invariant preserved, variant decreased
                     self.phis(fr, bi, pred, st)
                     self.check_invariants(fr, bi, invs, decs, st, 'preserve')
+                    self.check_iteration(fr, bi, st)
                     return
                 # entry: establish, havoc, assume
                 self.phis(fr, bi, pred, st)
@@ -524,6 +526,7 @@ class Exec:
                 self.havoc_loop(fr, bi, body, havoc, st)
                 fr.havocked[bi] = True
                 self.assume_invariants(fr, bi, invs, decs, st)
+                st.loop_mark = len(st.trace)
                 self.run_instrs(fr, bi, self.first_nonphi(fr.f['blocks'][bi]), pred, st, k)
                 return
         self.phis(fr, bi, pred, st)
@@ -696,6 +699,35 @@ class Exec:
                     g = z3.And(self.spec.as_int(cur) < prev, self.spec.as_int(cur) >= 0)
                     self.oblige(st, '%s/%s/loop.%s.decreases' % (self.tagstr(c), self.prog.short(fr.f['name']), lid), g,
                                 tags=c.tags or ['C13'], where='%s:%d' % (c.file, c.line), kind='variant')
+
+    def check_iteration(self, fr, head, st):
+        """`loop X: iteration expr` -- obligation at the end of every iteration (events since the loop head are visible
+        through itercalls("f") / iterselect())."""
+        con = self.spec.contract_for(fr.f['name']) if self.spec else None
+        if con is None:
+            return
+        lid = self.loop_id(fr.f, head)
+        env = self.local_env(fr, st)
+        for c in con.of('loop'):
+            if c.extra['loop'] != lid or c.extra['what'] != 'iteration' or not self.active(c):
+                continue
+            e = self.spec_parse(c.extra['arg'])
+            g = self.spec.eval_bool(self, e[2], env, st, getattr(self, 'fn_old', st))
+            self.oblige(st, '%s/%s/loop.%s.iteration.%s' % ('+'.join(e[0]) or 'AUX', self.prog.short(fr.f['name']), lid, e[1] or 'it'), g,
+                        tags=e[0], where='%s:%d' % (c.file, c.line), kind='invariant')
+
+    def spec_parse(self, text):
+        import specparse
+        tags, label = [], None
+        m = specparse.TAGS.match(text)
+        if m:
+            tags = [x.strip() for x in m.group(1).split(',') if x.strip()]
+            text = text[m.end():]
+        m = specparse.LABEL.match(text)
+        if m:
+            label = m.group(1)
+            text = text[m.end():]
+        return tags, label, specparse.parse_expr(text)
 
     def assume_invariants(self, fr, head, invs, decs, st):
         env = self.local_env(fr, st)
@@ -1217,6 +1249,12 @@ class Exec:
         st.pc.append(g)
         sig = self.prog.under(fv.t)[1]
         rets = [self.fresh_val(rt, 'cbret', st) for rt in (sig.get('results') or [])]
+        # the callee may write through pointer arguments: local cells handed to it become arbitrary
+        for a in args:
+            if isinstance(a.x, PAddr) and a.x.cid is not None and isinstance(a.t, str):
+                tt = self.prog.under(a.t)[1]
+                if tt['kind'] == 'pointer':
+                    self.store(st, a.x, self.fresh_val(tt['elem'], 'cbout', st))
         self.spec.on_opaque_call(self, fr, ins, fv, args, rets, st)
         if len(rets) == 0:
             k(st, None)
@@ -1228,7 +1266,8 @@ class Exec:
     def call_function(self, fr, ins, name, args, st, k, bindings=None, via=None):
         f = self.prog.funcs.get(name)
         con = self.spec.contract_for(name) if self.spec else None
-        if con is not None and not self.spec.inline_anyway(con, self):
+        if con is not None and not self.spec.inline_anyway(con, self) and not (getattr(self, 'pure_depth', 0) and f and f['blocks']
+                                                                                and not any(c.kind == 'trusted' for c in con.clauses)):
             return self.spec.apply_contract(self, fr, ins, con, name, args, st, k)
         intr = self.spec.intrinsic(name)
         if intr is not None:
@@ -1272,7 +1311,9 @@ class Exec:
             fv = V(call['fn']['t'], Clo(call['fn']['n'], []))
         else:
             fv = self.operand(fr, call['fn'], st)
-        st.trace.append(('go', fv, args, list(st.pc)))
+        st.trace.append(('go', fv, args, list(st.pc), st.nalloc))
+        cur = st.ghost.setdefault('$nspawn', z3.Const('g0_nspawn', BV64))
+        st.ghost['$nspawn'] = cur + 1
 
     def run_defers(self, fr, st):
         for d in reversed(fr.defers):
